@@ -521,6 +521,8 @@ def main(tier):
         ck.count("U.canonical" if a.get("canonical") else "U.noncanonical-leb")
         mod = {"ok": True, "value": norm(a["value"]), "len": a["len"],
                "offsets": R.offsets_model(a["offsets"]) if a["offsets"] is not None else None, "packed": a["packed"]}
+        if env[top]["kind"] != "typedef" and a.get("offset_of") is not None:
+            mod["offset_of"] = a["offset_of"]
         rl = {k: real.get(k) for k in mod}
         rl["value"] = norm(rl["value"])
         if env[top]["kind"] == "typedef":
@@ -528,6 +530,8 @@ def main(tier):
         if mod != rl and not fails:
             corr.append(("unpack", case.dump(), rl, mod))
         # the theorem instances, evaluated on the model: pack(unpack) = canon(mask) and mask/len facts
+        if exp is not None and exp["ok"] and bool(a.get("canonical")) == noncanon:
+            corr.append(("model canonical flag != oracle", case.dump(), noncanon, a.get("canonical")))
         if a.get("wf") and a.get("canonical") and a["packed"] != a["canon"]:
             corr.append(("model: pack(unpack) != canon mask", case.dump(), a["packed"], a["canon"]))
         if exp is not None and exp["ok"] and a["mask"] != exp["mask"] and not fails:
@@ -665,9 +669,9 @@ def main(tier):
 
     # ---- generated definitions ------------------------------------------------------------------
     g = G.Gen(r, tag.strip("_") + "g")
-    nfix = 260 if quick else 6000
-    nvar = 200 if quick else 5000
-    nmal = 60 if quick else 1500
+    nfix = 260 if quick else 14000
+    nvar = 200 if quick else 12000
+    nmal = 60 if quick else 4000
     gcc_pool = []
     for n in range(nfix + nvar + nmal):
         varlen = nfix <= n < nfix + nvar
@@ -780,7 +784,7 @@ def main(tier):
 
     # ---- B: LEB128 ---------------------------------------------------------------------------------
     from amoco.system.structs.utils import read_leb128, write_uleb128, write_sleb128
-    nleb = 1500 if quick else 40000
+    nleb = 1500 if quick else 100000
     reqs, expect = [], []
     for k in range(nleb):
         sg = r.random() < 0.5
@@ -829,7 +833,7 @@ def main(tier):
     ck.sample({"leb": [expect[0], expect[1]]})
 
     # ---- G: gcc validation of the reference -----------------------------------------------------------
-    ngcc = 60 if quick else 2500
+    ngcc = 60 if quick else 7000
     pool = gcc_pool[:ngcc]
     with tempfile.TemporaryDirectory(prefix="c16gcc") as wd:
         for ps in (8, 4):
@@ -899,6 +903,39 @@ def main(tier):
                      "(stream, source text, psize, data)")
 
 
+def replay(path):
+    """re-run the case of a replay file on the current tree: prints real / model / expected"""
+    rec = json.load(open(path))
+    c = rec.get("case") or {}
+    if "env" not in c:
+        print(json.dumps(rec, indent=1)[:4000])
+        return 0
+    case = load_case(c)
+    env2, top2 = rename_env(case.env, case.top, "r%d" % os.getpid())
+    fresh_amoco()
+    drv = Driver("drv_struct")
+    out = {"signature": rec.get("signature"), "broken": rec.get("broken")}
+    try:
+        classes = R.build(env2)
+    except Exception as e:
+        out["real"] = "definition raises %s: %s" % (type(e).__name__, e)
+        print(json.dumps(out, indent=1, default=repr))
+        return 1
+    ps = case.ps if case.ps is not None else 8
+    out["layout"] = {"real": real_layout(classes, top2, ps), "model": drv.ask(model_layout_req(top2, env2, ps)),
+                     "expected": oracle_layout(top2, env2, ps)}
+    if case.data is not None:
+        out["unpack"] = {"real": R.run_unpack(classes[top2], top2, env2, ps, case.data, case.off),
+                         "model": drv.ask(model_unpack_req(top2, env2, ps, case.data, case.off))}
+        try:
+            out["unpack"]["expected"] = oracle_unpack(top2, env2, ps, case.data, case.off)
+        except Exception as e:
+            out["unpack"]["expected"] = "not judged (%s)" % type(e).__name__
+    drv.close()
+    print(json.dumps(out, indent=1, default=repr))
+    return 0
+
+
 def env_all_for(name, pool):
     for top, env in pool:
         if name in env:
@@ -907,4 +944,6 @@ def env_all_for(name, pool):
 
 
 if __name__ == "__main__":
+    if len(sys.argv) > 2 and sys.argv[1] == "--replay":
+        sys.exit(replay(sys.argv[2]))
     sys.exit(main(sys.argv[1] if len(sys.argv) > 1 else "quick"))
